@@ -144,6 +144,10 @@ func newEventFromUntrustedJSONV2(eventJSON []byte, roomVersion IRoomVersion) (PD
 	if err := checkID(res.eventFields.RoomID, "room", '!'); err != nil {
 		return nil, err
 	}
+	if _, err := spec.NewRoomID(res.eventFields.RoomID); err != nil {
+		// RoomID() relies on the room ID being parseable
+		return nil, err
+	}
 
 	res.roomVersion = roomVersion.Version()
 
@@ -273,6 +277,10 @@ func newEventFromTrustedJSONV2(eventJSON []byte, redacted bool, roomVersion IRoo
 	if err := checkID(res.eventFields.RoomID, "room", '!'); err != nil {
 		return nil, err
 	}
+	if _, err := spec.NewRoomID(res.eventFields.RoomID); err != nil {
+		// RoomID() relies on the room ID being parseable
+		return nil, err
+	}
 
 	res.roomVersion = roomVersion.Version()
 	res.redacted = redacted
@@ -287,6 +295,10 @@ func newEventFromTrustedJSONWithEventIDV2(eventID string, eventJSON []byte, reda
 	}
 
 	if err := checkID(res.eventFields.RoomID, "room", '!'); err != nil {
+		return nil, err
+	}
+	if _, err := spec.NewRoomID(res.eventFields.RoomID); err != nil {
+		// RoomID() relies on the room ID being parseable
 		return nil, err
 	}
 
